@@ -48,6 +48,7 @@ structure Case where
   ctor : Actuals Val := ⟨[], []⟩
   connect : Actuals Val := ⟨[], []⟩
   ctx : Actuals Val := ⟨[], []⟩
+  mids : Mids := []
   opt : Option Options := none
   impl : Option Wrote := none
   implText : String := ""
@@ -59,12 +60,12 @@ def showWrote : Option Wrote → String
 
 def finishCase (c : Case) : List String :=
   let e : Entry Val := if c.context then .context c.ctx else .direct c.ctor c.connect
-  let m := (payload id prog e).bind wroteOf
+  let m := wroteBy c.mids e
   let corr := if m == c.impl then s!"{c.id} CORR ok"
               else s!"{c.id} CORR diff model=[{showWrote m}] impl=[{showWrote c.impl}{if c.impl.isNone then " " ++ c.implText else ""}]"
   let prop := match c.opt, c.impl with
     | some o, some w =>
-      (match (honoured o w).find? (fun x => !x.2) with
+      (match (honoured c.mids o w).find? (fun x => !x.2) with
        | some x => s!"{c.id} PROP C06 fail options_honoured {x.1}"
        | none => s!"{c.id} PROP C06 ok")
     | some _, none => s!"{c.id} PROP C06 fail options_honoured no_handshake {c.implText}"
@@ -79,6 +80,7 @@ def step (c : Case) (line : String) : Case × List String :=
   | "CALL" :: "ctor" :: r => ({ c with ctor := parseActuals r }, [])
   | "CALL" :: "connect" :: r => ({ c with connect := parseActuals r }, [])
   | "CALL" :: "ctx" :: r => ({ c with ctx := parseActuals r }, [])
+  | ["MID", n, i] => ({ c with mids := c.mids ++ [(hexToString n, intOf i)] }, [])
   | ["OPT", l, d, a, i, n] => ({ c with opt := some ⟨b01 l, b01 d, b01 a, intOf i, hexToString n⟩ }, [])
   | ["IMPL", l, d, a, i, n, l1, d1] =>
     ({ c with impl := some ⟨⟨b01 l, b01 d, b01 a, intOf i, hexToString n⟩, b01 l1, b01 d1⟩ }, [])
